@@ -158,6 +158,33 @@ CHECKS = {
             "Names outside the documented grammar (a number hyphenated with a word) are not generated."),
 }
 
+# extensions after the fifth / sixth round of seeded changes (appended to the level text)
+EXTRA = {
+    "C01": " Also: a decimal index inside a literal key text at its extremes (set_txt_index), UCS-2 strings with the uncounted 01 byte.",
+    "C02": " GoldSrc answer ids over all 32 bits; every layout case of a definitions-table row (css with its protocol-7 framing rule "
+           "included) also through the definition-driven entry point.",
+    "C04": " Both spellings of the administrator variable (D19); GameSpy 3 packets start with the section byte in the header and the "
+           "reply may be cut exactly between the player and the team section.",
+    "C05": " Both spellings of the version variable in one reply (D19).",
+    "C06": " Lists of 64 entries dealt over datagrams at random boundaries; UCS-2 strings with the uncounted 01 byte.",
+    "C08": " bzip2-compressed Source replies (Reassembly.tla comp / hdr: the header travels in fragment 0 wherever it arrives); six "
+           "fragments sampled by TLC's simulation mode.",
+    "C09": " Destination sweep: every table row x address x port given / omitted x silent / refusing server through the "
+           "definition-driven entry point; the Java handshake also through the caller's extra request settings (each one set / unset).",
+    "C10": " Every other Valve behaviour is replayed through the definition-driven entry point of a table row.",
+    "C11": " Every other Valve behaviour is replayed through the definition-driven entry point of a table row, the toggles and the "
+           "app-id switch travelling as the caller's extra request settings.",
+    "C12": " Valve 'chalsilent' mode (a challenge, then silence) and the bound MaxReqs on the requests the real server sees "
+           "(attempts are not multiplied by one another).",
+    "C13": " decompression_bomb: a compressed split reply with legal fields whose bzip2 stream expands to 300 MiB; set_txt_index.",
+    "C14": " The documented Valve-to-game conversion is re-stated in the harness (not taken from the library).",
+    "C18": " The HTTP client (Eco) on a real socket with every accepted timeout combination.",
+    "C19": " Timeout flag values that denote no representable duration (nan, inf, 1e20, 2^64) for each of the three flags; keys that are XML "
+           "names with 2-, 3- and 4-byte characters at every early offset and with the reserved prefix.",
+    "C20": " Inner / trailing numbers up to 2^64 (IdRules.tla mag); candidate ids derived from every number in the name and from the "
+           "name without its bracket.",
+}
+
 NOT_YET = "check under construction in this session (claimed in DESIGN.md; registered as soon as it is sound)"
 
 
@@ -193,7 +220,7 @@ def main():
             "evidence_file": f"/verif/evidence/{pid}.json",
             "replay_cmd_template": f"bin/check {pid} quick --replay {{path}}",
             "engine": "tlc+vh",
-            "level_claimed": {"category": cat, "text": text, "design_ref": f"DESIGN.md section 5, {pid}"},
+            "level_claimed": {"category": cat, "text": text + EXTRA.get(pid, ""), "design_ref": f"DESIGN.md section 5, {pid}"},
             "level_note": note,
             "technique": tech,
         })
